@@ -30,7 +30,7 @@ ASSUMPTIONS = ['systems only log (timestep, id) in execute()', 'clock-warp cases
                'rejecting non-integers and n<1)']
 FLOORS = {'quick': {'decisions_ran': 5000, 'decisions_not_ran': 5000, 'multi_step_calls': 1000, 'rejected_n_value': 300,
                     'rejected_n_type': 300, 'windows_negative_start': 300, 'windows_end_before_start': 100,
-                    'late_registrations': 300, 'warp_cases': 20, 'box_windows': 140, 'spawn_cases': 200,
+                    'late_registrations': 300, 'warp_cases': 20, 'box_windows': 140, 'collector_windows': 500, 'spawn_cases': 200,
                     'mid_step_registry_changes': 1000,
                     'reach:Core.Model.execute': 1000, 'reach:Core.SystemManager.execute_systems': 5000},
           'thorough': {'decisions_ran': 500000, 'decisions_not_ran': 500000, 'multi_step_calls': 100000,
@@ -47,8 +47,25 @@ def _fixtures():
             self.log = log
 
         def execute(self):
-            self.log.append((self.model.systems.timestep, self.id))
+            t = self.model.systems.timestep
+            if self.model.timestep != t:          # the model-level clock must equal the scheduler's also while a timestep runs
+                self.log.append(('model.timestep != systems.timestep inside a step', self.model.timestep, t))
+            self.log.append((t, self.id))
 
+    import ECAgent.Collectors as collectors
+
+    class WinCollector(collectors.Collector):
+        """Collectors are systems too: same window semantics (collect() is what execute() calls)."""
+
+        def __init__(self, id, model, log, **kw):
+            super().__init__(id, model, **kw)
+            self.log = log
+
+        def collect(self):
+            t = self.model.systems.timestep
+            self.log.append((t, self.id))
+
+    WinSystem.Collector = WinCollector
     return core, WinSystem
 
 
@@ -103,8 +120,11 @@ def case_script(ctx, case):
         kw = dict(priority=w['prio'], frequency=w['freq'], start=w['start'])
         if not w['default_end']:
             kw['end'] = w['end']
-        objs[w['id']] = WinSystem(w['id'], model, log, **kw)
-        tobjs[w['id']] = WinSystem(w['id'], twin, tlog, **kw)
+        cls = WinSystem.Collector if rng.random() < 0.3 else WinSystem
+        if cls is not WinSystem:
+            ctx.count('collector_windows')
+        objs[w['id']] = cls(w['id'], model, log, **kw)
+        tobjs[w['id']] = cls(w['id'], twin, tlog, **kw)
     registered = []
     t = 0
     total = rng.randint(40, 80)
